@@ -181,13 +181,19 @@ def stageOne (cur : List TA) (tomb : List Nat) (signers : List Key) (k : Key) : 
    | some old => isTrusted old.st && sameKeyExceptRevoke old.key k && signedBy signers k
    | none => false)
 
-/-- tags `t` with `revocationSelfSigned[t] == true`. -/
-def stage (cur : List TA) (tomb : List Nat) (signers : List Key) (fetched : List Key) : List Nat :=
-  (fetched.filter (stageOne cur tomb signers)).map (·.tag)
+/-- the fetched keys `k` with `revocationSelfSigned[k.tag] == true` (the Go map
+is indexed by tag; `kskFetched` holds exactly one key per tag, so indexing by
+the fetched key is the same thing). -/
+def stage (cur : List TA) (tomb : List Nat) (signers : List Key) (fetched : List Key) : List Key :=
+  fetched.filter (stageOne cur tomb signers)
 
-/-- `oldTA.State = StateRevoked; oldTA.FirstSeen = time.Now()` -/
-def setRevoked (cur : List TA) (t now : Nat) : List TA :=
-  cur.map (fun ta => if ta.key.tag == t then { ta with st := .revoked, firstSeen := now } else ta)
+/-- `oldTA.State = StateRevoked; oldTA.FirstSeen = time.Now()` on the entry
+`kskCurrent[t]` (the first and, in a Go map, only entry with that tag). -/
+def setRevoked : List TA → Nat → Nat → List TA
+  | [], _, _ => []
+  | ta :: rest, t, now =>
+    if ta.key.tag == t then { ta with st := .revoked, firstSeen := now } :: rest
+    else ta :: setRevoked rest t now
 
 structure Loop where
   cur : List TA
@@ -196,13 +202,13 @@ structure Loop where
 deriving Repr
 
 /-- body of `for _, tag := range fetchedTags`. -/
-def procFetched (staged : List Nat) (revOnly : Bool) (now : Nat) (s : Loop) (k : Key) : Loop :=
+def procFetched (staged : List Key) (revOnly : Bool) (now : Nat) (s : Loop) (k : Key) : Loop :=
   if s.tomb.contains k.mat then s
   else if sameAsExisting s.cur k then s
   else if k.revoke then
     match lookup s.cur (tagSub128 k.tag) with
     | some old =>
-      if isTrusted old.st && sameKeyExceptRevoke old.key k && staged.contains k.tag then
+      if isTrusted old.st && sameKeyExceptRevoke old.key k && staged.contains k then
         { cur := setRevoked s.cur (tagSub128 k.tag) now, tomb := s.tomb ++ [k.mat],
           revoked := s.revoked ++ [k.mat] }
       else s
@@ -270,6 +276,24 @@ def process (P : Params) (f : Fetch) (revOnly : Bool) (now : Nat) (cur : List TA
   let l := fetched.foldl (procFetched staged revOnly now) { cur := cur, tomb := tomb }
   if revOnly then l else { l with cur := holdDown P (fetched.map (·.tag)) now l.cur }
 
+/-- the persistence tail and the publication policy: tombstones first, the
+`StateRevoked`/`StateRemoved` markers are dropped only when that write landed,
+then the state file; fail-closed clear when a new revocation could not be
+recorded at all. `live1` is the live set after the pre-fetch publication. -/
+def finish (fl : Faults) (live1 : List Key) (a : Auth) (cand : List Key) (l : Loop) : Result :=
+  let tombErr := fl.tombWrite
+  let stateErr := fl.stateWrite
+  let cur' := if tombErr then l.cur else l.cur.filter (fun ta => !isMarker ta.st)
+  let writes := (if tombErr then [] else [Write.tomb l.tomb]) ++
+                (if stateErr then [] else [Write.state cur'])
+  let live' :=
+    if tombErr && stateErr && !l.revoked.isEmpty then []
+    else if tombErr && stateErr then live1
+    else candidate cur'
+  { live := live', writes := writes,
+    outcome := if tombErr || stateErr then .perr else .ok,
+    auth := a, cand := cand, revoked := l.revoked, curFinal := l.cur }
+
 /-- `func (r *Resolver) AutoTA()` -/
 def autoTA (P : Params) (cfg : List Key) (d : Disk) (live : List Key) (f : Option Fetch)
     (fl : Faults) (now : Nat) : Result :=
@@ -286,20 +310,7 @@ def autoTA (P : Params) (cfg : List Key) (d : Disk) (live : List Key) (f : Optio
     | some f =>
       match verifyFetched cand f with
       | .none => { live := live1, outcome := .verr, cand := cand, curFinal := cur }
-      | a =>
-        let l := process P f (a == .revOnly) now cur tomb
-        let tombErr := fl.tombWrite
-        let stateErr := fl.stateWrite
-        let cur' := if tombErr then l.cur else l.cur.filter (fun ta => !isMarker ta.st)
-        let writes := (if tombErr then [] else [Write.tomb l.tomb]) ++
-                      (if stateErr then [] else [Write.state cur'])
-        let live' :=
-          if tombErr && stateErr && !l.revoked.isEmpty then []
-          else if tombErr && stateErr then live1
-          else candidate cur'
-        { live := live', writes := writes,
-          outcome := if tombErr || stateErr then .perr else .ok,
-          auth := a, cand := cand, revoked := l.revoked, curFinal := l.cur }
+      | a => finish fl live1 a cand (process P f (a == .revOnly) now cur tomb)
 
 def applyWrite (d : Disk) : Write → Disk
   | .tomb ms => { d with tomb := .ok ms }
